@@ -209,10 +209,7 @@ func (r *Run) Finish() int {
 }
 
 func (r *Run) distinctCount() int64 {
-	if r.DistinctN > 0 {
-		return r.DistinctN
-	}
-	return int64(len(r.distinct))
+	return r.DistinctN + int64(len(r.distinct))
 }
 
 func (r *Run) writeReplay(v *Violation) string {
